@@ -295,6 +295,17 @@ func checkC10(env *Env) []Violation {
 			}
 			// duration-histogram stopwatch: the sample must land in a bucket that
 			// contains an elapsed time between lo and hi (checked after the settle step)
+			if mv.kind == "hist" && lv == maybe && mv.spec != nil && mv.spec.Dur {
+				// requested while a Close of an ancestor was in progress: the handle may be
+				// the live histogram of that identity or an inert one, so what this
+				// identity receives is not determined
+				k := idKey(mv.FullName, mv.Tags)
+				if histWant[k] == nil {
+					t := TilingOf(mv.spec, env.Prog.Cfg.DefBuckets)
+					histWant[k] = &swHist{name: mv.FullName, tags: mv.Tags, til: t, min: make([]int64, t.N()), max: make([]int64, t.N())}
+				}
+				histWant[k].loose = true
+			}
 			if mv.kind == "hist" && lv == live && mv.spec != nil && mv.spec.Dur {
 				k := idKey(mv.FullName, mv.Tags)
 				t := TilingOf(mv.spec, env.Prog.Cfg.DefBuckets)
